@@ -30,6 +30,14 @@ CORE_SPECS = [
     ('shared-items', 'S->x A y | z A w | x B w; A->C; B->C q; C->c | c C'),
     ('eps-both-ends', 'S->A s A; A->eps | a'),
     ('deep-unit-null', 'S->A; A->B; B->C | b; C->eps'),
+    # FIRST / nullable interplay
+    ('nullable-leftrec-after-nt', 'S->H L e; H->h; L->L i | eps'),
+    ('nullable-leftrec-via-tail', 'S->H T; T->L e; H->h; L->L i | eps'),
+    ('nullable-rightrec-after-nt', 'S->H L e; H->h; L->i L | eps'),
+    ('nullable-leftrec-nested', 'S->H L e; H->h | H g; L->L M | eps; M->i | ( L )'),
+    ('first-through-nullable-prefix', 'S->A S x | y; A->B C; B->b | eps; C->c | eps'),
+    ('nullable-leftrec-two-levels', 'S->P Q z; P->P p | eps; Q->Q P q | eps'),
+    ('leftrec-nullable-middle', 'S->a L L b; L->L c | eps'),
     # not LR(1): conflicts must be reported
     ('ambig-expr', 'E->E + E | E * E | i'),
     ('dangling-else', 'S->i S | i S e S | x'),
@@ -73,7 +81,7 @@ def clone(g):
 def mutate(g, rnd):
     """one random structural mutation of g (keeps names valid)"""
     g = clone(g); nn = len(g.nts); nt = len(g.terms)
-    op = rnd.choice(['addrule', 'addrule', 'nullable', 'dupnt', 'insertsym', 'addterm', 'wrap', 'unit', 'droprule', 'swap'])
+    op = rnd.choice(['addrule', 'addrule', 'nullable', 'dupnt', 'insertsym', 'addterm', 'wrap', 'unit', 'droprule', 'swap', 'listify', 'ntafter'])
     def rsym():
         return ('n', rnd.randrange(len(g.nts))) if rnd.random() < 0.4 else ('t', rnd.randrange(len(g.terms)))
     if op == 'addrule':
@@ -102,6 +110,17 @@ def mutate(g, rnd):
         g.nts.append('N%d' % (len(g.nts) + 10)); g.vtypes.append('V'); new = len(g.nts) - 1
         g.rules.append(Rule(new, [rsym(), ('n', rnd.randrange(nn)), rsym()]))
         g.rules.append(Rule(rnd.randrange(nn), [('n', new)]))
+    elif op == 'listify':
+        # make a nonterminal a nullable (left- or right-) recursive list
+        a = rnd.randrange(nn); x = rsym() if rnd.random() < 0.3 else ('t', rnd.randrange(nt))
+        g.rules.append(Rule(a, [('n', a), x] if rnd.random() < 0.6 else [x, ('n', a)]))
+        if rnd.random() < 0.8: g.rules.append(Rule(a, []))
+    elif op == 'ntafter':
+        # put a nonterminal directly after another nonterminal somewhere
+        i = rnd.randrange(len(g.rules)); r = g.rules[i]
+        ks = [k for k, sy in enumerate(r.rhs) if sy[0] == 'n']
+        if ks and len(r.rhs) < 6:
+            k = rnd.choice(ks); rhs = list(r.rhs); rhs.insert(k + 1, ('n', rnd.randrange(nn))); g.rules[i] = Rule(r.lhs, rhs, r.prec, r.ftor)
     elif op == 'unit':
         a, b = rnd.randrange(nn), rnd.randrange(nn)
         if a != b: g.rules.append(Rule(a, [('n', b)]))
